@@ -14,6 +14,11 @@ constructor keywords (sa/xmlr.py) and the parsed XSD are compared:
               value; boolean and direction encodings agree; schema enumeration values are enum values
   RT-ORDER    ordered collections are iterated in stored order when written and accumulated in document
               order into lists when read; point coordinates x,y come from / go to indices 0,1
+  RT-GUARD    whether a value is written depends on that value only: every condition an emission stands under reads
+              (an attribute on the path to) the attribute being written, not a sibling attribute of the object
+  RT-TRUTH    the reader tests presence of an element with `is None`, never by its truth value (an element without
+              children is false); elements that always have a child by the XSD are exempt
+  RT-STATE    no mutable default argument of a reader / writer function is changed or handed out
 """
 import ast
 
